@@ -15,7 +15,7 @@ from fractions import Fraction
 
 import numpy as _np
 
-from .alg import Ctx, X
+from .alg import Ctx, X, _isqrt_frac
 from .core import Unsupported
 
 _FLOAT_DT = (float, _np.float64, _np.float32, "float", "float64", complex, _np.complex128)
@@ -170,19 +170,24 @@ class NP:
         return getattr(_np, k)
 
     # ---- lifting
+    _scalar = "X"
+
     def _lift(self, v):
         if isinstance(v, X):
             return v
+        K = (lambda q: q) if self._scalar == "fraction" else self._c.const
         if isinstance(v, (bool, _np.bool_)):
-            return self._c.const(int(v))
-        if isinstance(v, (int, Fraction, _np.integer)):
-            return self._c.const(Fraction(int(v)) if not isinstance(v, Fraction) else v)
+            return K(Fraction(int(v)))
+        if isinstance(v, Fraction):
+            return K(v)
+        if isinstance(v, (int, _np.integer)):
+            return K(Fraction(int(v)))
         if isinstance(v, (float, _np.floating)):
             f = float(v)
             if f == int(f) and abs(f) < 2 ** 53:
-                return self._c.const(int(f))
+                return K(Fraction(int(f)))
             if self._floats == "exact":
-                return self._c.const(Fraction(f))
+                return K(Fraction(f))
             raise Unsupported(f"float {f!r} leaked into exact arithmetic")
         if isinstance(v, Opaque):
             return v
@@ -301,6 +306,9 @@ class NP:
                 return v
             v = self._lift(v)
             try:
+                if isinstance(v, Fraction):
+                    r = _isqrt_frac(v)
+                    return r if r is not None else self._c.sqrt_rational(v)
                 return self._c.sqrt(v)
             except Unsupported as e:
                 if _opaque_ok:
@@ -313,13 +321,19 @@ class NP:
 
     absolute = abs
 
+    def _sgn(self, v):
+        v = self._lift(v)
+        if isinstance(v, Fraction):
+            return (v > 0) - (v < 0)
+        return v.sign()
+
     def sign(self, x):
-        return self._map(lambda v: self._c.const(self._lift(v).sign()), x)
+        return self._map(lambda v: self._lift(self._sgn(v)), x)
 
     def heaviside(self, x, h0):
         def f(v, h):
-            s = self._lift(v).sign()
-            return self._c.const(1) if s > 0 else (self._lift(h) if s == 0 else self._c.const(0))
+            s = self._sgn(v)
+            return self._lift(1) if s > 0 else (self._lift(h) if s == 0 else self._lift(0))
         return self._map(f, x, h0)
 
     def maximum(self, a, b):
@@ -356,7 +370,8 @@ class NP:
 
     def _trig(self, v, which):
         v = self._lift(v)
-        key = id(v)
+        if isinstance(v, Fraction):
+            v = self._c.const(v)
         g = v.ground()
         if g is not None and g == 0:
             return self._c.const(1 if which == "cos" else 0)
